@@ -5,6 +5,7 @@
 #![allow(clippy::all)]
 
 pub mod ca;
+pub mod child;
 pub mod detmap;
 pub mod exec;
 pub mod expect;
